@@ -16,7 +16,7 @@ type c12Case struct {
 	stmts     []proc.Stmt
 	transform bool
 	label     string
-	runnable  bool // terminating and single-typed: accepted code must run without evaluator panic
+	runnable  bool   // terminating and single-typed: accepted code must run without evaluator panic
 	shadow    string // predicate context: name of the pattern's capture ("" = cap)
 }
 
